@@ -79,7 +79,8 @@ PF(fns, main) == Prog(<<>>, <<>>, fns, <<>>, main)
 \* p: k kind, o op (1 + 2 - 3 *), f form (1 asg x = x op R, 2 asgl x = R op x, 3 cas x op= R, 4 inc), r operand (1..NConst constant,
 \*    8 variable of the same kind, 9 variable of another kind), v value class, l loop form (1 for3, 2 forc, 3 forr, 4 none), d decl
 AccOps == <<"+", "-", "*">>
-OtherK(k) == IF k = "int16" THEN "int32" ELSE "int16"
+\* a wider kind where there is one, so that storing the promoted result back into the variable needs a conversion
+OtherK(k) == IF k = "int64" THEN "int16" ELSE IF k = "float32" THEN "float64" ELSE IF k = "float64" THEN "float32" ELSE "int64"
 AccStep(p, rhs) ==
   LET op == AccOps[p.o]
   IN  CASE p.f = 1 -> SAsg(V("a"), Bin(op, V("a"), rhs))
@@ -154,17 +155,17 @@ CallIdx == { p \in { [fam |-> "call", pk |-> k, rk |-> IF rs = 0 THEN k ELSE Oth
                /\ Thin(p.pk + p.rk * 3 + p.a * 5 + p.ak * 7 + p.b * 11, IF Full THEN 1 ELSE 3) }
 
 \* ------------------------------------------------------------------ family "asgb": the assignment boundary
-\* p: k kind of the variable, a (1..NConst constant, 8 variable of kind ak), ak, w (1 x = e, 2 var y K = e)
+\* p: k kind of the variable, a (1..NConst constant, 8 variable of kind ak), ak, w (1 x = e with x declared by var, 2 var y K = e, 3 x = e with x := K(1))
 FamAsgb(p) ==
   LET k  == NumKindSeq[p.k]
       ak == NumKindSeq[p.ak]
       e  == IF p.a <= NConst THEN ConstE[p.a] ELSE V("v")
-  IN  P0((IF p.a = 8 THEN <<SVar("v", T(ak), TI(ak, 3))>> ELSE <<>>)
-         \o (IF p.w = 1 THEN <<SVar("x", T(k), TI(k, 5)), SPr(<<PL("start")>>), SAsg(V("x"), e), PrA("x", "x"),
-                              SAsg(V("x"), Bin("+", V("x"), V("x"))), PrA("x", "x")>>
+  IN  P0((IF p.a = 8 THEN <<Decl(IF p.w = 3 THEN "def" ELSE "var", "v", ak, TI(ak, 3))>> ELSE <<>>)
+         \o (IF p.w \in {1, 3} THEN <<Decl(IF p.w = 3 THEN "def" ELSE "var", "x", k, TI(k, 5)), SPr(<<PL("start")>>), SAsg(V("x"), e), PrA("x", "x"),
+                                       SAsg(V("x"), Bin("+", V("x"), V("x"))), PrA("x", "x")>>
              ELSE <<SPr(<<PL("start")>>), SVar("y", T(k), e), PrA("y", "y")>>))
 AsgbIdx == { p \in { [fam |-> "asgb", k |-> k, a |-> a, ak |-> IF as = 0 THEN k ELSE Oth(k, as + 5), w |-> w] :
-                       k \in KSel(6, 3), a \in 1..8, as \in 0..(IF Full THEN 4 ELSE 2), w \in 1..2 } :
+                       k \in KSel(6, 3), a \in 1..8, as \in 0..(IF Full THEN 4 ELSE 2), w \in 1..3 } :
                /\ (p.a # 8 => p.ak = p.k)
                /\ Thin(p.k + p.a * 3 + p.ak * 5 + p.w * 7, IF Full THEN 1 ELSE 2) }
 
